@@ -1,5 +1,126 @@
 import Cellml.Basic.Sexp
-/-! Channel C01 of the model driver (stub: not built yet). -/
+import Cellml.Units.Wire
+import Cellml.Load.Loader
+
+/-! Channel C01 (also usable by C13/C15/C17):
+    `(C01 load (units u…) (comps c…) (encaps e…) (conns k…) (free q))`
+      u = `(base 0 "name")` | `(def 0 "name" (elem…))`
+      c = `("name" (vars ("v" "units" pub priv init cmeta)…) (eqs (lhs rhs)…))`, init = `none | (some p/q)`
+      e = `(none|(some "parent") "component")`,  k = `("c1" "v1" "c2" "v2")`
+      expressions: `(num p/q "unit") (var "x") (diff "x" "t") (add a b) (sub a b) (mul a b) (div a b) (neg a) (pow a n)`
+    → `(ok (eqs (lhs (leaf…))…) (vars (name init cmeta)…) (values (name p/q)…) (derivs (name p/q)…) (roots (name root)…))`
+    | `(err Class "what")`. -/
 namespace C01
-def handle (_args : List Sexp) : Sexp := .atom "not-implemented"
+open Sexp Load
+
+def iface? : Sexp → Option Iface
+  | .atom "in" => some .inn
+  | .atom "out" => some .out
+  | .atom "none" => some .none
+  | _ => none
+
+partial def expr? : Sexp → Option (Expr String String)
+  | .list [.atom "num", q, u] => do some (.num (← rat? q) (← atomOf? u))
+  | .list [.atom "var", x] => do some (.var (← atomOf? x))
+  | .list [.atom "diff", x, t] => do some (.diff (← atomOf? x) (← atomOf? t))
+  | .list [.atom "add", a, b] => do some (.add (← expr? a) (← expr? b))
+  | .list [.atom "sub", a, b] => do some (.sub (← expr? a) (← expr? b))
+  | .list [.atom "mul", a, b] => do some (.mul (← expr? a) (← expr? b))
+  | .list [.atom "div", a, b] => do some (.div (← expr? a) (← expr? b))
+  | .list [.atom "neg", a] => do some (.neg (← expr? a))
+  | .list [.atom "pow", a, n] => do some (.powi (← expr? a) (← int? n))
+  | _ => none
+
+def lhs? : Sexp → Option (Lhs String)
+  | .list [.atom "var", x] => do some (.var (← atomOf? x))
+  | .list [.atom "diff", x, t] => do some (.diff (← atomOf? x) (← atomOf? t))
+  | _ => none
+
+def optRat? : Sexp → Option (Option Rat)
+  | .atom "none" => some none
+  | .list [.atom "some", q] => do some (some (← rat? q))
+  | _ => none
+
+def optStr? : Sexp → Option (Option String)
+  | .atom "none" => some none
+  | .list [.atom "some", s] => do some (some (← atomOf? s))
+  | _ => none
+
+def var? : Sexp → Option VarDecl
+  | .list [n, u, pub, priv, init, cm] => do
+      some ⟨← atomOf? n, ← atomOf? u, ← iface? pub, ← iface? priv, ← optRat? init, ← optStr? cm⟩
+  | _ => none
+
+def eqn? : Sexp → Option (Eqn String String)
+  | .list [l, r] => do some ⟨← lhs? l, ← expr? r⟩
+  | _ => none
+
+def comp? : Sexp → Option Comp
+  | .list [n, .list (.atom "vars" :: vs), .list (.atom "eqs" :: es)] => do
+      some ⟨← atomOf? n, ← vs.mapM var?, ← es.mapM eqn?⟩
+  | _ => none
+
+def unit? : Sexp → Option UnitDecl
+  | .list [.atom "base", _, n] => do some (.base (← atomOf? n))
+  | .list [.atom "def", _, n, es] => do some (.derived (← atomOf? n) (← Units.Wire.elems? es))
+  | _ => none
+
+def encap? : Sexp → Option (Option String × String)
+  | .list [p, c] => do some (← optStr? p, ← atomOf? c)
+  | _ => none
+
+def conn? : Sexp → Option Conn
+  | .list [a, b, c, d] => do some ⟨← atomOf? a, ← atomOf? b, ← atomOf? c, ← atomOf? d⟩
+  | _ => none
+
+def doc? : List Sexp → Option Doc
+  | .list (.atom "units" :: us) :: .list (.atom "comps" :: cs) :: .list (.atom "encaps" :: es) ::
+      .list (.atom "conns" :: ks) :: _ => do
+      some { units := ← us.mapM unit?, comps := ← cs.mapM comp?, encaps := ← es.mapM encap?, conns := ← ks.mapM conn? }
+  | _ => none
+
+def flatName (v : VRef) : String := v.1 ++ "$" ++ v.2
+
+def lhsName : Lhs VRef → String
+  | .var a => flatName a
+  | .diff x t => "d(" ++ flatName x ++ ")/d(" ++ flatName t ++ ")"
+
+def ofOptRat : Option Rat → Sexp
+  | none => .atom "none"
+  | some q => .list [.atom "some", ofRat q]
+
+def ofOptStr : Option String → Sexp
+  | none => .atom "none"
+  | some s => .list [.atom "some", .str s]
+
+def errSexp (e : Err) : Sexp := .list [.atom "err", .atom e.className, .str e.what]
+
+def loadReply (doc : Doc) (free : Rat) : Sexp :=
+  match load doc with
+  | .error e => errSexp e
+  | .ok F =>
+    let tb := evalFlat F free
+    let eqs := F.eqs.map (fun e => Sexp.list [.str (lhsName e.lhs), .list (e.rhs.leaves.map (fun l => .str (lhsName l)))])
+    let vars := F.vars.map (fun v => Sexp.list [.str (flatName v.ref), ofOptRat v.init, ofOptStr v.cmeta])
+    let values := F.eqs.filterMap (fun e => match e.lhs with
+      | .var a => some (Sexp.list [.str (flatName a), ofRat (tget tb (.v a))])
+      | _ => none)
+    let derivs := F.eqs.filterMap (fun e => match e.lhs with
+      | .diff x _ => some (Sexp.list [.str (flatName x), ofRat (tget tb (.d x))])
+      | _ => none)
+    .list [.atom "ok", .list (.atom "eqs" :: eqs), .list (.atom "vars" :: vars), .list (.atom "values" :: values),
+           .list (.atom "derivs" :: derivs)]
+
+def handle (args : List Sexp) : Sexp :=
+  match args with
+  | .atom "load" :: rest =>
+      match doc? rest with
+      | none => .atom "bad-document"
+      | some doc =>
+          let free := match rest.getLast? with
+            | some (.list [.atom "free", q]) => (rat? q).getD 0
+            | _ => 0
+          loadReply doc free
+  | _ => .atom "bad-request"
+
 end C01
